@@ -35,6 +35,10 @@ BOUNDS = {
     "thorough": "10 forms x 4 frames (EME2000, GCRF, G50, TOD) x 9 e x 5 i x 6 perigee radii (with their node/perigee/M0) x 20 dt x (direct + 3 splits + inverse + period); J2 likewise",
 }
 ASSUMPTIONS = [
+    "hyperbolic initial states are given in the 8 forms defined for them (not TLE, not keplerian_mean_circular - see C01)",
+    "hyperbolic states far from perigee: comparisons that involve writing or reading such a state through the classical "
+    "elements carry the conditioning term eta = ulp(nu) sqrt(e^2-1) r/p (far_eta), derived in the code; legs that start "
+    "and end near perigee keep 1e-10 x cond",
     "dt is realised as a timedelta (1 microsecond resolution); the reference uses the same rounded number of seconds",
     "the secular J2 rates are defined for bound orbits only (averaging over one revolution): J2 is not examined on hyperbolas",
     "the J2 propagator treats the given elements as mean elements; the reference does the same",
@@ -93,8 +97,8 @@ def units(tier, seed):
     for frame in FRAMES[tier]:
         for form in fr.FORMS:
             for e in E_ELL + E_HYP:
-                if e > 1 and form == "tle":
-                    continue
+                if e > 1 and form in ("tle", "keplerian_mean_circular"):
+                    continue  # forms not defined for hyperbolas (counted as exclusions in run_unit)
                 u.append((cfg, dict(frame=frame, form=form, e=e, tier=tier)))
     return u
 
@@ -166,6 +170,48 @@ def state_tol(R, dt):
     if R["conic"] == "ell":
         return TOL_ELL * R["cond"] * (1 + R["n"] * abs(dt))
     return TOL_HYP * R["cond"]
+
+
+EPS = 2.0 ** -53
+# safety factor on the far-state conditioning terms: a chain writes the far state (1 rounding of nu), reads it back
+# (arctan2 + cos + sin: ~3 more) and both sides of a comparison do so; measured on the tree with the M2E/asinh fixes:
+# worst observed / (term with factor 1) = 3.4 (inverse), 1.6 (state, M), 0.4 (e, perigee)
+FAR_SAFETY = 16.0
+
+
+def far_eta(R, x):
+    """Conditioning of a hyperbolic state far from perigee in the true-anomaly representation.
+
+    Any chain through the classical elements (library: cartesian <-> keplerian <-> eccentric <-> mean) carries
+    the radius as r = p / (1 + e cos nu).  Far out on a hyperbola 1 + e cos nu = p / r cancels: an absolute error
+    d(nu) of the true anomaly (one ulp of a double in [2, 4): 4 x 2^-53; the asymptote lies in (pi/2, pi)) gives
+        d(1 + e cos nu) = e sin(nu) d(nu) ~ sqrt(e^2 - 1) d(nu)       (sin nu -> sqrt(e^2-1)/e at the asymptote)
+    i.e. a RELATIVE error  eta = ulp(nu) sqrt(e^2 - 1) r / p  on r (written state) and on sinh H = sin(nu) sqrt(e^2-1)
+    / (1 + e cos nu) (state read back), hence
+        dM = e cosh H dH = e sinh H (d sinh H / sinh H) ~ |M| eta
+    on the mean anomaly recovered from such a state.  Near perigee r/p <= 1 and eta ~ eps: nothing is added there.
+    (For rp = 7000 km, e = 3.7, 30 d: r/p = 980, |M| = 12400, eta = 1.5e-12, dM = 2e-8.)  Returns eta; 0 for ellipses."""
+    if R["conic"] == "ell":
+        return 0.0
+    e = R["e"]
+    p = R["a"] * (1 - e * e)
+    return 4 * EPS * math.sqrt(e * e - 1) * float(np.linalg.norm(x[:3])) / p
+
+
+def far_dM(R, x):
+    """Error of the mean anomaly the library can recover from the hyperbolic state x: |M(x)| eta(x) (see far_eta)."""
+    if R["conic"] == "ell":
+        return 0.0
+    H = math.asinh(float(x[:3] @ x[3:]) / (R["e"] * math.sqrt(R["mu"] * abs(R["a"]))))
+    return abs(R["e"] * math.sinh(H) - H) * far_eta(R, x)
+
+
+def sens(R, y):
+    """Relative change of position and velocity at state y per unit of mean anomaly: dM = n dt moves the position
+    by v dt and the velocity by (mu / r^2) dt."""
+    r = float(np.linalg.norm(y[:3]))
+    v = float(np.linalg.norm(y[3:]))
+    return max(v / (R["n"] * r), R["mu"] / (r * r * R["n"] * v))
 
 
 def _margin(t, name, value, tol, case):
@@ -252,7 +298,8 @@ def check_kepler(orb, form, frame, dt, t, tier="quick"):
     if abs((out.date - want_date).total_seconds()) > TOL_TIME or out.frame.name != frame:
         t.fail("Kepler.propagate/result-date-or-frame", "propagate(dt) is the state at date+dt in the same frame", case,
                [str(want_date), frame], [str(out.date), out.frame.name])
-    tol = state_tol(R, dt)
+    # a state written far out on a hyperbola carries the relative error eta of r = p/(1 + e cos nu) (far_eta)
+    tol = state_tol(R, dt) + FAR_SAFETY * far_eta(R, oracle(orb, dt))
     # (1) oracle
     ref = oracle(orb, dt)
     d = _rel(x, ref)
@@ -269,12 +316,17 @@ def check_kepler(orb, form, frame, dt, t, tier="quick"):
         H = math.asinh(float(x[:3] @ x[3:]) / (k["e"] * math.sqrt(R["mu"] * abs(k["a"]))))
         k["M"] = k["e"] * math.sinh(H) - H
         k["H"] = H
+    # elements re-derived from a state written far out on a hyperbola: the radius is off by the relative error
+    # eta along r (far_eta).  h = |r x v| scales with it -> de/e = (e^2-1)/e^2 eta, the e-vector (v x h)/mu - r/|r|
+    # turns by <= eta, r.v -> sinh H -> M scales with it; the energy (v^2/2 >> mu/r) and the direction of h do
+    # not: a, i and the node keep their tight tolerance
+    far = FAR_SAFETY * far_eta(R, ref)
     checks = [
         ("a", abs(k["a"] / R["a"] - 1), etol),
-        ("e", abs(k["e"] - R["e"]), etol * max(1.0, 0.1 / R["e"]) ** 2),  # library: e = sqrt(1 - h^2/(a mu)): eps/e
+        ("e", abs(k["e"] - R["e"]), etol * max(1.0, 0.1 / R["e"]) ** 2 + far * R["e"]),  # library: e = sqrt(1 - h^2/(a mu)): eps/e
         ("i", abs(k["i"] - R["i"]), etol * ci),
         ("node", abs(fr.wrap(k["Om"] - R["Om"])), etol * ci),
-        ("perigee", abs(fr.wrap(k["w"] - R["w"])), etol * ce * ci),
+        ("perigee", abs(fr.wrap(k["w"] - R["w"])), etol * ce * ci + far),
     ]
     for name, val, tl in checks:
         if not _margin(t, f"kepler {conic}: {name} unchanged [/tol]", val, tl, case):
@@ -286,7 +338,7 @@ def check_kepler(orb, form, frame, dt, t, tier="quick"):
         dM = fr.wrap(dM)
         mtol = etol * ce * (1 + R["n"] * abs(dt))
     else:
-        mtol = etol * max(1.0, abs(R["M0"] + R["n"] * dt))
+        mtol = (etol + far) * max(1.0, abs(R["M0"] + R["n"] * dt))
     if not _margin(t, f"kepler {conic}: M - (M0 + n dt) [/tol]", abs(dM), mtol, case):
         t.fail(f"{sig}/mean-anomaly-rate", "advances the mean anomaly by n*dt", case, R["M0"] + R["n"] * dt, k["M"],
                f"from {form}: M off by {dM:.3e} (tol {mtol:.1e}) at dt = {dt} s")
@@ -304,7 +356,10 @@ def check_kepler(orb, form, frame, dt, t, tier="quick"):
         end, xe = _propagate(mid, _td(t2), t, sig, clause, dict(case, t1=t1), f"second leg after t1 = {label}", _m_class(R, dt))
         if xe is None:
             continue
-        tl = state_tol(R, t1) + state_tol(R, t2) + state_tol(R, dt)
+        # the second leg reads its start state xm back into a mean anomaly (error far_dM(xm), felt at the end
+        # state with the sensitivity sens(xe)); both end states are written with the relative error eta
+        tl = (state_tol(R, t1) + state_tol(R, t2) + state_tol(R, dt)
+              + FAR_SAFETY * (far_dM(R, xm) * sens(R, x) + 2 * far_eta(R, x)))
         d = _rel(xe, x)
         t.ev()
         if not _margin(t, f"kepler {conic}: composition [rel/tol]", d, tl, case):
@@ -317,8 +372,11 @@ def check_kepler(orb, form, frame, dt, t, tier="quick"):
     if xb is not None:
         d = _rel(xb, R["rv"])
         t.ev()
-        if not _margin(t, f"kepler {conic}: inverse [rel/tol]", d, 2 * tol, case):
-            t.fail(f"{sig}/inverse{_start_class(R, x)}", clause, case, R["rv"], xb, f"from {form}: propagate(dt) then propagate(-dt) misses the initial state by {d:.3e} (tol {2 * tol:.1e})")
+        # the way back starts from x: its mean anomaly is recovered to far_dM(x) only, which moves the state reached
+        # (the initial one) by sens(rv0) per unit of M.  Near-perigee x: far_dM ~ eps |M|, nothing added.
+        tli = 2 * state_tol(R, dt) + FAR_SAFETY * far_dM(R, ref) * sens(R, R["rv"])
+        if not _margin(t, f"kepler {conic}: inverse [rel/tol]", d, tli, case):
+            t.fail(f"{sig}/inverse{_start_class(R, x)}", clause, case, R["rv"], xb, f"from {form}: propagate(dt) then propagate(-dt) misses the initial state by {d:.3e} (tol {tli:.1e})")
     # (5) periodicity
     if conic == "ell":
         P = round(2 * math.pi / R["n"] * 1e6) / 1e6
@@ -424,6 +482,7 @@ def run_unit(p, t):
         if R["conic"] == "hyp" and p["form"] == "keplerian_mean":
             # the hyperbolic x TLE-form states that are not generated (counted once per frame and orbit)
             t.exclude("hyperbolic initial state in the TLE form (undefined: n = sqrt(mu/a^3), a < 0)", len(dts))
+            t.exclude("hyperbolic initial state in the keplerian_mean_circular form (alpha = (w + M) mod 2pi cannot carry a hyperbolic mean anomaly; see C01)", len(dts))
         for dt in dts:
             check_kepler(orb, p["form"], p["frame"], dt, t, tier)
         if R["conic"] == "ell":
